@@ -6,6 +6,7 @@ from __future__ import annotations
 
 import itertools
 
+from vf import explore
 from vf.props.c08_dom import FLOATS, L, OMIT, S, T, axes, dim_lists, fs, note_dim, schema
 
 INT64_MAX = 9223372036854775807
@@ -480,7 +481,15 @@ def fam_clamp(c):
 MATMUL = ["matmul", "mm", "bmm", "mv", "dot", "addmm", "addmv", "addr", "baddbmm", "addbmm", "linear"]
 _MM_DT = ["f32", "f64", "f16", "i32", "i64"]
 _MAT_SHAPES = [(3,), (2, 3), (3, 2), (3, 4), (2, 2, 3), (2, 3, 2), (1, 3, 2), (0, 3), (3, 0), (), (2,), (1, 2, 2, 3)]
-_SELF_SHAPES = [(), (1,), (2,), (3,), (4,), (2, 2), (1, 2), (2, 1), (2, 4), (2, 2, 2), (1, 2, 2), (2, 1, 2), (0,), (2, 0)]
+_SELF_SHAPES = [(), (1,), (2,), (3,), (2, 2), (1, 2), (2, 1), (2, 2, 2), (1, 2, 2), (0,), (2, 0)]
+# operands of the fused multiply-add overloads: a few compatible shapes incl. empty inner/outer dims
+_FMA = {
+    "addmm": {"mat1": [(2, 3), (2, 0), (0, 3)], "mat2": [(3, 2), (0, 2), (3, 0), (3, 1)]},
+    "addmv": {"mat": [(2, 3), (0, 3), (2, 0)], "vec": [(3,), (0,)]},
+    "addr": {"vec1": [(2,), (0,)], "vec2": [(2,), (3,), (0,)]},
+    "baddbmm": {"batch1": [(2, 2, 3), (1, 2, 3), (2, 2, 0)], "batch2": [(2, 3, 2), (1, 3, 2), (2, 0, 2)]},
+    "addbmm": {"batch1": [(2, 2, 3), (1, 2, 3), (2, 2, 0)], "batch2": [(2, 3, 2), (1, 3, 2), (2, 0, 2)]},
+}
 
 
 def fam_matmul(c):
@@ -492,18 +501,16 @@ def fam_matmul(c):
         if ty == "Tensor" and first:
             first = False
             dt = c.dtype(dtypes=_MM_DT)
-            shapes = _SELF_SHAPES if base in ("addmm", "addmv", "addr", "baddbmm", "addbmm") else _MAT_SHAPES
-            if c.cfg["tier"] == "quick":
-                shapes = shapes[:8]
+            shapes = _SELF_SHAPES if base in _FMA else _MAT_SHAPES
             s = c.pick(name, [(fs(x), x) for x in shapes])
             c.g[name] = T(s, dt, "a")
         elif ty in ("Tensor", "Optional[Tensor]"):
             if name == "bias":
                 menu = [("omit", OMIT), ("None", None)] + [(fs(x), x) for x in ((4,), (2,), (1,), (), (0,))]
+            elif base in _FMA:
+                menu = [(fs(x), x) for x in _FMA[base][name]]
             else:
                 shapes = _MAT_SHAPES + ([(4, 3), (1, 3)] if base == "linear" else [])
-                if c.cfg["tier"] == "quick":
-                    shapes = shapes[:8]
                 menu = [(fs(x), x) for x in shapes]
             v = c.pick(name, menu)
             if v is None:
@@ -511,7 +518,7 @@ def fam_matmul(c):
             elif v is not OMIT:
                 c.g[name] = T(v, dt, "b")
         elif name in ("beta", "alpha"):
-            _put(c, name, c.pick(name, [("omit", OMIT), ("1", 1), ("2", 2), ("-1", -1), ("0", 0), ("0.5", 0.5)]))
+            _put(c, name, c.pick(name, [("omit", OMIT), ("2", 2), ("-1", -1), ("0", 0), ("0.5", 0.5)]))
         elif not has_def:
             raise AssertionError(f"{c.op}: no menu for required argument {name}: {ty}")
     return c.case()
@@ -537,7 +544,7 @@ def fam_norm(c):
         if ty == "Tensor" and sh is None:
             dt = c.dtype(dtypes=_NORM_DT)
             sh = c.pick("shape", [(fs(x), x) for x in _NORM_SHAPES])
-            c.g[name] = T(sh, dt, "a")
+            c.g[name] = T(sh, dt, "w")  # moderate magnitudes: a normalisation cancels the mean
             ch = sh[1] if len(sh) >= 2 else (sh[0] if sh else 1)
         elif name == "normalized_shape":
             menu = [list(sh[k:]) for k in range(len(sh), -1, -1)] + [[7]]
@@ -554,7 +561,11 @@ def fam_norm(c):
                 pat = "u" if name in ("running_var",) else ("b" if name in ("weight",) else "c")
                 c.g[name] = T(wsh, dt, pat)
         elif name in ("num_groups", "group"):
-            _put(c, name, c.pick(name, [(str(v), v) for v in (1, 2, 4, 3)]))
+            g = c.pick(name, [(str(v), v) for v in (1, 2, 4, 3)])
+            if ch and ch % g == 0 and (ch // g) * (_numel(sh[2:]) if len(sh) > 2 else 1) <= 1:
+                # a group of one element has variance 0: the result is rounding noise amplified by 1/sqrt(eps)
+                raise explore.Prune()
+            _put(c, name, g)
         elif name == "N":
             _put(c, name, sh[0] if sh else 1)
         elif name == "C":
